@@ -40,7 +40,8 @@ Mk(v, p, m, o, l, rf, wf) == MkL(v, p, m, o, l, rf, wf, 0, -1)
 \* operands: the directory {f1, sub/{f2}, f4} and then the file f6 - 3! orders of the entries
 Tree1 == <<[dir |-> <<[leaf |-> 1], [dir |-> <<[leaf |-> 2]>>], [leaf |-> 3]>>], [leaf |-> 4]>>
 Leaf1 == <<F1, F2, F4, F6>>
-DirLayouts == {[files |-> [i \in 1..Len(f) |-> Leaf1[f[i]]], stdin |-> <<>>] : f \in Lin(Tree1)}
+DirLayouts1 == {[files |-> [i \in 1..Len(f) |-> Leaf1[f[i]]], stdin |-> <<>>] : f \in Lin(Tree1)}
+DirLayouts == DirLayouts1
 ASSUME LinIsDepthFirst ==
   /\ Cardinality(Lin(Tree1)) = 6
   /\ \A f \in Lin(Tree1) : Len(f) = 4 /\ {f[i] : i \in 1..4} = 1..4 /\ f[4] = 4         \* every file once; the second operand after the whole first
@@ -48,6 +49,11 @@ ASSUME LinIsDepthFirst ==
   \* a directory's files are contiguous: {a, sub/{b, c}} never gives b a c
   /\ Lin(<<[dir |-> <<[leaf |-> 1], [dir |-> <<[leaf |-> 2], [leaf |-> 3]>>]>>]>>) = {<<1, 2, 3>>, <<1, 3, 2>>, <<2, 3, 1>>, <<3, 2, 1>>}
 Limits == {<<0, 0>>, <<0, 1>>, <<0, 2>>, <<1, 1>>, <<1, 2>>, <<0, 3>>, <<2, -1>>}
+\* the thorough tier (MC_Run_thorough.cfg): every --skip 0..3 x --take none, 0..4; a directory of four entries, two of them directories (one empty), between two file operands
+LimitsBig == {<<sk, tk>> : sk \in 0..3, tk \in -1..4} \ {<<0, -1>>}
+Tree2 == <<[leaf |-> 4], [dir |-> <<[leaf |-> 1], [dir |-> <<[leaf |-> 2], [leaf |-> 3]>>], [dir |-> <<>>], [leaf |-> 5]>>], [leaf |-> 1]>>
+Leaf2 == <<F1, F2, F4, F6, F5>>
+DirLayoutsBig == DirLayouts1 \cup {[files |-> [i \in 1..Len(f) |-> Leaf2[f[i]]], stdin |-> <<>>] : f \in Lin(Tree2)}
 SrcsOf(l) == IF l.files = <<>> THEN <<l.stdin>> ELSE l.files
 \* one fault at a time: none, a read fault at every offset (end of input included) of every input, a write fault at offsets 0..24
 Init == \/ \E p \in Policies, l \in Layouts : Init0(Mk(FALSE, p, "plain", FALSE, l, NoRF, -1))
